@@ -17,13 +17,13 @@ import (
 const vS16A = `
 interface Node { id: ID! }
 interface Pet { id: ID! name: String! }
-type Cat implements Node & Pet { id: ID! name: String! old: Int @deprecated(reason: "gone") lives(min: Int = 1): Int }
+type Cat implements Node & Pet { id: ID! name: String! old: Int @deprecated(reason: "gone") lives(min: Int = 1): Int twin: Cat }
 type Dog implements Node & Pet { id: ID! name: String! bark: [String!]! }
 union Thing = Cat | Dog
 enum Mood { HAPPY GRUMPY @deprecated }
 input Filter { mood: Mood = HAPPY limit: Int = 10 tags: [String!] }
 interface Lonely { id: ID! }
-type Query { node(id: ID!): Node pets(filter: Filter, limit: Int = null): [Pet!]! things: [Thing!]! lonely: Lonely }
+type Query { node(id: ID!): Node pets(filter: Filter, limit: Int = null): [Pet!]! things: [Thing!]! lonely: Lonely tom: Cat }
 `
 const vS16B = `
 interface Node { id: ID! }
